@@ -108,7 +108,7 @@ def showFacts : String :=
   let cw := ";".intercalate (Generated.C08.closureWrites.map fun e => e.1 ++ ":" ++ ",".intercalate e.2)
   let f := Generated.C08.goFacts
   let b (x : Bool) := if x then "1" else "0"
-  s!"cw={if cw.isEmpty then "-" else cw} argsCopied={b f.argsCopied} goBinArgsCopied={b f.goBinArgsCopied} callBinGoArgsCopied={b f.callBinGoArgsCopied} closureClones={b f.closureClones} cloneLocked={b f.cloneLocked} storeLocked={b (f.getFuncStoreLocked && f.getFuncRestoreLocked)} wrapperFramePerCall={b f.wrapperFramePerCall}"
+  s!"cw={if cw.isEmpty then "-" else cw} argsCopied={b f.argsCopied} goBinArgsCopied={b f.goBinArgsCopied} callBinGoArgsCopied={b f.callBinGoArgsCopied} closureClones={b f.closureClones} cloneLocked={b f.cloneLocked} storeLocked={b f.getFuncStoreLocked} noDefFrameWrite={b f.getFuncNoDefFrameWrite} wrapperFramePerCall={b f.wrapperFramePerCall}"
 
 def handle (args : List Sexp) : String :=
   match args with
